@@ -12,7 +12,7 @@ import os
 import re
 import shlex
 
-from . import zygote
+from . import inotify, zygote
 
 
 class ManifestError(Exception):
@@ -194,7 +194,7 @@ class Manifest:
                         "depfile", "deps", "generator", "restat", "pool", "dyndep", "msvc_deps_prefix",
                     ):
                         raise ManifestError("unexpected variable '%s'" % k)
-                    if k in ("depfile", "deps", "generator", "restat", "pool", "dyndep"):
+                    if k in ("depfile", "deps", "pool", "dyndep"):
                         raise Unsupported("rule binding " + k)
                     b[k] = v
                     i += 1
@@ -287,6 +287,13 @@ class Manifest:
         if key not in r:
             return None
         return evalstr(r[key], lookup)
+
+    def flag(self, e, key):
+        """boolean rule/edge binding (restat, generator): true iff non-empty"""
+        v = e.vars.get(key)
+        if v is None:
+            v = self.rules[e.rule].get(key)
+        return bool(v)
 
     def command_for_hash(self, e):
         c = self.binding(e, "command") or ""
@@ -405,9 +412,38 @@ class SimNinja:
         except (FileNotFoundError, NotADirectoryError):
             return None
 
+    def outputs_dirty_reason(self, mf, e, log, most, mtime_of):
+        """ninja's RecomputeOutputDirty for every output of e"""
+        reason = None
+        restat, generator = mf.flag(e, "restat"), mf.flag(e, "generator")
+        for o in e.outs:
+            m = mtime_of(o)
+            ent = log.get(o)
+            if m is None:
+                reason = reason or "missing-output"
+                continue
+            used_restat = restat and ent is not None
+            if not used_restat and m < most:
+                reason = reason or "older-than-input"
+            if ent is None:
+                if not generator:
+                    reason = reason or "no-log-entry"
+            else:
+                if not generator and ent["hash"] != cmd_hash(mf.command_for_hash(e)):
+                    reason = reason or "command-changed"
+                if ent["mtime"] < most:
+                    reason = reason or "log-older-than-input"
+        return reason
+
     def compute_dirty(self, mf, log):
         dirty = {}
         missing = []
+        self.scan_mtime = {}
+
+        def mt(path):
+            if path not in self.scan_mtime:
+                self.scan_mtime[path] = self._mtime(path)
+            return self.scan_mtime[path]
 
         def visit(e):
             if e.idx in dirty:
@@ -419,7 +455,7 @@ class SimNinja:
                 if p is not None:
                     if visit(p):
                         reason = reason or "upstream"
-                m = self._mtime(i)
+                m = mt(i)
                 if m is None and p is None:
                     missing.append((i, e.outs[0]))
                     reason = reason or "missing-input"
@@ -428,20 +464,7 @@ class SimNinja:
                 p = mf.prod.get(i)
                 if p is not None:
                     visit(p)
-            for o in e.outs:
-                m = self._mtime(o)
-                ent = log.get(o)
-                if m is None:
-                    reason = reason or "missing-output"
-                elif m < most:
-                    reason = reason or "older-than-input"
-                if ent is None:
-                    reason = reason or "no-log-entry"
-                else:
-                    if ent["hash"] != cmd_hash(mf.command_for_hash(e)):
-                        reason = reason or "command-changed"
-                    if ent["mtime"] < most:
-                        reason = reason or "log-older-than-input"
+            reason = reason or self.outputs_dirty_reason(mf, e, log, most, mt)
             dirty[e.idx] = reason
             return reason
 
@@ -601,7 +624,7 @@ class SimNinja:
         def ready(e):
             for i in e.ins + e.implicit + e.order:
                 p = mf.prod.get(i)
-                if p is not None and dirty[p.idx] and p.idx not in done_ok:
+                if p is not None and dirty[p.idx] and p.idx not in done_ok and p.idx not in cleaned:
                     return False
             return True
 
@@ -634,6 +657,11 @@ class SimNinja:
                 env = dict(env)
                 env["PATH"] = os.path.join(os.path.dirname(os.path.abspath(__file__)), "shim_fail") + ":" + env["PATH"]
                 env["NSIM_INNER_FAULT"] = json.dumps({"code": f.get("code", 2), "mode": f.get("mode", "no_output"), "marker": marker})
+            watcher = None
+            try:
+                watcher = inotify.Watcher(real_bdir)
+            except OSError:
+                pass
             pid = zygote.launch(
                 argv, bdir, env,
                 os.devnull if lf else self.step_log,
@@ -641,7 +669,16 @@ class SimNinja:
                 readdir_seed=self.readdir_seed,
             )
             st = zygote.wait(pid)
+            touched = {}
+            if watcher is not None:
+                touched = watcher.drain()
+                watcher.close()
             reads, writes = w.settle()
+            # scratch files that came and went while the step ran are writes of this step too
+            transient = sorted(p for p in touched if not os.path.lexists(p) and os.path.basename(p) != LOG_NAME)
+            if transient:
+                rec["transient"] = [w.rel(p) for p in transient]
+                writes = set(writes) | set(transient)
             if f is not None and f["kind"] == "fail_after":
                 st = ("exit", 1)
                 rec["fired"] = True
@@ -709,6 +746,30 @@ class SimNinja:
                     )
             return rec
 
+        node_dirty = {}
+        for e in mf.edges:
+            for o in e.outs:
+                node_dirty[o] = bool(dirty[e.idx])
+        cleaned = set()  # edges taken out of the plan by a restat edge that left its output untouched
+
+        def clean_node(out):
+            """ninja's Plan::CleanNode: the output turned out unchanged; dependents whose only reason to run was this node are dropped"""
+            node_dirty[out] = False
+            for oe in mf.edges:
+                if out not in oe.ins and out not in oe.implicit:
+                    continue
+                if oe.idx not in pending:
+                    continue
+                if any(node_dirty.get(i, False) for i in oe.ins + oe.implicit):
+                    continue
+                most = max([self.scan_mtime.get(i) or 0 for i in oe.ins + oe.implicit] or [0])
+                if self.outputs_dirty_reason(mf, oe, log, most, lambda p_: self.scan_mtime.get(p_, self._mtime(p_))) is None:
+                    pending.discard(oe.idx)
+                    cleaned.add(oe.idx)
+                    res.steps.append({"restat_cleaned": oe.outs[0], "by": out})
+                    for o2 in oe.outs:
+                        clean_node(o2)
+
         def finish_bookkeeping(e, rec, start_ns):
             nonlocal failed
             ok = rec["status"] == ["exit", 0]
@@ -720,8 +781,24 @@ class SimNinja:
                     except FileNotFoundError:
                         pass
                 h = cmd_hash(mf.command_for_hash(e))
+                record_mtime = start_ns
+                if mf.flag(e, "restat") or mf.flag(e, "generator"):
+                    node_cleaned = False
+                    for o in e.outs:
+                        new_m = self._mtime(o)
+                        if new_m is None:
+                            failed = True  # ninja: stat error
+                            continue
+                        if new_m > record_mtime:
+                            record_mtime = new_m
+                        if mf.flag(e, "restat") and self.scan_mtime.get(o) == new_m:
+                            clean_node(o)
+                            node_cleaned = True
+                    if node_cleaned:
+                        record_mtime = start_ns
                 for o in e.outs:
-                    append_log(bdir, o, start_ns, h)
+                    append_log(bdir, o, record_mtime, h)
+                    log[o] = {"o": o, "mtime": record_mtime, "hash": h}
                     try:
                         st = os.stat(os.path.join(bdir, o))
                         w.last_size[(real_bdir, o)] = st.st_size
